@@ -169,6 +169,38 @@ def exec_row(r, ex, jnp):
         return outcome_of(lambda: ex.ic.SineWaves1d(1.0, tuple([1.0] * r[1]), tuple([1] * r[2]), tuple([0.0] * r[3])))[0]
     if t == "windows":
         return outcome_of(lambda: ex.stack_sub_trajectories(jnp.zeros((r[1], 1, 4)), r[2]))[0]
+    if t == "poisson_order":
+        return outcome_of(lambda: ex.poisson.Poisson(r[1], 1.0, 6, order=r[2]))[0]
+    if t == "operator_shape":
+        D, C, m = r[1], r[2], r[3]
+        N = 6
+        W = (N,) * (D - 1) + (N // 2 + 1,)
+        if m.startswith("singleton_axis_") and int(m[-1]) > D - 1:
+            return "n/a"                      # no such leading spatial axis in this dimension
+        shape = {"per_channel": (C,) + W, "shared": (1,) + W, "one_channel_too_many": (C + 1,) + W, "physical_last_axis": (C,) + (N,) * D,
+                 "no_channel_axis": W, "extra_axis": (C, 1) + W, "singleton_last_axis": (C,) + W[:-1] + (1,), "all_singleton": (1,) * (D + 1)}.get(m)
+        if shape is None:
+            i = int(m[-1])
+            shape = (C,) + tuple(1 if a == i - 1 else n for a, n in enumerate(W))
+
+        class _Custom(ex.BaseStepper):
+            op_shape: tuple
+
+            def __init__(self):
+                self.op_shape = shape
+                super().__init__(D, 1.0, N, 0.1, num_channels=C, order=2)
+
+            def _build_linear_operator(self, derivative_operator):
+                return -jnp.ones(self.op_shape, dtype=derivative_operator.dtype)
+
+            def _build_nonlinear_fun(self, derivative_operator):
+                return ex.nonlin_fun.ZeroNonlinearFun(D, N)
+        oc, st = outcome_of(_Custom)
+        if oc == "returned":
+            oc2, out = outcome_of(lambda: st(jnp.ones((C,) + (N,) * D)))
+            if oc2 != "returned" or tuple(out.shape) != (C,) + (N,) * D:
+                return "constructed but unusable: " + oc2
+        return oc
     return "unknown-row"
 
 
